@@ -41,6 +41,7 @@ import (
 	"time"
 
 	"github.com/tetratelabs/wazero"
+	"github.com/tetratelabs/wazero/api"
 	"github.com/tetratelabs/wazero/imports/wasi_snapshot_preview1"
 	"github.com/tetratelabs/wazero/internal/platform"
 	"github.com/tetratelabs/wazero/sys"
@@ -67,7 +68,8 @@ type runResult struct {
 	RestZeroB bool   `json:"rest_zero_b"`
 	ErrA      string `json:"err_a"`
 	ErrB      string `json:"err_b"`
-	WallMs    int64  `json:"wall_ms"`
+	WallMsA   int64  `json:"wall_ms_a"`
+	WallMsB   int64  `json:"wall_ms_b"`
 }
 
 type childOut struct {
@@ -108,10 +110,10 @@ func childMain() {
 	}
 	order := rand.New(rand.NewSource(j.OrderSeed)).Perm(len(j.Programs))
 	out := childOut{}
+	slowRuns := 0
 	ctx := context.Background()
 	for _, pi := range order {
 		p := j.Programs[pi]
-		t0 := time.Now()
 		var rc wazero.RuntimeConfig
 		if j.Engine == "compiler" {
 			rc = wazero.NewRuntimeConfigCompiler()
@@ -140,10 +142,40 @@ func childMain() {
 			out.Fault = "instantiate b: " + err.Error()
 			break
 		}
-		_, ea := a.ExportedFunction("run").Call(ctx)
+		// a default context never blocks; 20 s is > 1000x the slowest normal run
+		call := func(m api.Module) (error, bool) {
+			done := make(chan error, 1)
+			go func() { _, e := m.ExportedFunction("run").Call(ctx); done <- e }()
+			select {
+			case e := <-done:
+				return e, true
+			case <-time.After(20 * time.Second):
+				return nil, false
+			}
+		}
+		t1 := time.Now()
+		ea, fin := call(a)
+		if !fin {
+			out.Fault = fmt.Sprintf("hang %d", p.Idx)
+			break
+		}
 		res.ErrA = errString(ea)
-		_, eb := b.ExportedFunction("run").Call(ctx)
+		t2 := time.Now()
+		eb, fin := call(b)
+		if !fin {
+			out.Fault = fmt.Sprintf("hang %d", p.Idx)
+			break
+		}
 		res.ErrB = errString(eb)
+		res.WallMsA, res.WallMsB = t2.Sub(t1).Milliseconds(), time.Since(t2).Milliseconds()
+		if res.WallMsA >= longSleepNs/1e6*9/10 {
+			slowRuns++
+		}
+		if slowRuns >= 12 {
+			// every long timeout so far was really slept: stop, the parent reports it
+			out.Fault = "real-sleep"
+			break
+		}
 		n := dumpLen(p)
 		grab := func(mem []byte) ([]byte, bool) {
 			rest := true
@@ -163,7 +195,6 @@ func childMain() {
 		}
 		res.MemA, res.RestZeroA = grab(ma)
 		res.MemB, res.RestZeroB = grab(mb)
-		res.WallMs = time.Since(t0).Milliseconds()
 		out.Results = append(out.Results, res)
 		rt.Close(ctx)
 	}
@@ -255,7 +286,7 @@ func runChild(v *variant, progs []program, dir string) {
 	if err := json.Unmarshal(raw, &v.out); err != nil {
 		hx.Fatal("child %d output: %v", v.ID, err)
 	}
-	if v.out.Fault != "" {
+	if v.out.Fault != "" && v.out.Fault != "real-sleep" && !strings.HasPrefix(v.out.Fault, "hang ") {
 		hx.Fatal("child %d: %s", v.ID, v.out.Fault)
 	}
 	os.Remove(jobPath)
@@ -418,7 +449,7 @@ func main() {
 	}
 	orc = hx.StartOracle()
 	defer orc.Close()
-	rep = hx.NewReport("C18", "per seed: generated WASI-exerciser guests (kinds: uniform over all 46 imports / clock+random+poll heavy / stdio+close heavy / every import once), each run twice per child in (host-variant x engine) child processes differing in env, argv, cwd, TZ, stdin, GOMAXPROCS, start time; evaluation = one (program, child, instance) image compared; distinct = distinct (program, call index, function, model answer) tuples, non-trivial = the call's answer carries an errno other than ENOSYS or writes bytes")
+	rep = hx.NewReport("C18", "per seed: generated WASI-exerciser guests (kinds: uniform over all 46 imports / clock+random+poll heavy / stdio+close heavy / every import once; 8-70 calls, some repeated up to 2500x in a guest loop), each run twice (two instances) per child in (host-variant x engine) child processes differing in env, argv, cwd, TZ, stdin, GOMAXPROCS, start time; evaluation = one (program, child, instance) memory image compared with the reference child and monitored; distinct = distinct (guest binary hash, child, instance); every program is non-trivial (>= 8 WASI calls); per-function call counts and the model's answer classes are in the histogram")
 	r := hx.Rand()
 	if *hx.Work == "" {
 		hx.Fatal("-work is required")
@@ -433,10 +464,30 @@ func main() {
 	}
 	defer os.RemoveAll(dir)
 
-	nprog, nhost := 160, 4
+	nbatch, nprog, nhost := 1, 160, 4
 	if hx.Thorough() {
-		nprog, nhost = 2400, 8
+		nbatch, nprog, nhost = 20, 240, 6
 	}
+	// the constant stream of the default random source, handed to the model as its opaque parameter
+	stream := make([]byte, 262144)
+	if _, err := io.ReadFull(platform.NewFakeRandSource(), stream); err != nil {
+		hx.Fatal("fake rand: %v", err)
+	}
+	if a := orc.Ask("c18 rand " + hex.EncodeToString(stream)); a != "ok" {
+		hx.Fatal("oracle rand: %s", a)
+	}
+
+	for batch := 0; batch < nbatch; batch++ {
+		if stop := runBatch(r, batch, nprog, nhost, dir); stop {
+			break
+		}
+	}
+	rep.Write(orc)
+}
+
+// runBatch generates nprog guests, runs them in 2*nhost fresh child processes and evaluates tie B and
+// tie C on the results. It returns true when the run must stop (the children's results are partial).
+func runBatch(r *rand.Rand, batch, nprog, nhost int, dir string) bool {
 	var progs []program
 	for i := 0; i < nprog; i++ {
 		kind := i % 4
@@ -458,20 +509,11 @@ func main() {
 		}
 	}
 
-	// the constant stream of the default random source, handed to the model as its opaque parameter
-	stream := make([]byte, 262144)
-	if _, err := io.ReadFull(platform.NewFakeRandSource(), stream); err != nil {
-		hx.Fatal("fake rand: %v", err)
-	}
-	if a := orc.Ask("c18 rand " + hex.EncodeToString(stream)); a != "ok" {
-		hx.Fatal("oracle rand: %s", a)
-	}
-
 	var vars []*variant
 	tzs := []string{"UTC", "Asia/Tokyo", "America/Los_Angeles", "Europe/Berlin", "Pacific/Chatham", "Asia/Kolkata"}
 	for h := 0; h < nhost; h++ {
 		for _, e := range []string{"interpreter", "compiler"} {
-			v := &variant{ID: len(vars), Engine: e, TZ: tzs[h%len(tzs)], MaxProcs: []int{1, 2, 4, 7}[(h+len(vars))%4], DelayMs: len(vars) * 41}
+			v := &variant{ID: len(vars), Engine: e, TZ: tzs[(h+batch)%len(tzs)], MaxProcs: []int{1, 2, 4, 7}[(h+len(vars)+batch)%4], DelayMs: len(vars) * 41}
 			for _, tag := range []string{"ENV", "ARG", "CWD", "STDIN", "FILE"} {
 				v.Secrets = append(v.Secrets, secret(r, tag))
 			}
@@ -484,29 +526,96 @@ func main() {
 		go func(v *variant) { defer wg.Done(); runChild(v, progs, dir) }(v)
 	}
 	wg.Wait()
-	rep.Note("children: %d (host variants %d x engines 2), programs %d, start times spread over %d ms", len(vars), nhost, nprog, vars[len(vars)-1].DelayMs)
+	rep.Note("batch %d: children: %d (host variants %d x engines 2), programs %d, start times spread over %d ms", batch, len(vars), nhost, nprog, vars[len(vars)-1].DelayMs)
+
+	// the model's trace of every program (tie B) and how long it asks the context to sleep
+	type modelOut struct {
+		img   []byte
+		exit  string
+		lines []string
+		asked uint64
+	}
+	mo := make([]modelOut, len(progs))
+	for pi, p := range progs {
+		img, mexit, lines := modelImage(p, pi, pi)
+		st := orc.Askf("c18 state %d", pi)
+		var asked uint64
+		for _, f := range strings.Fields(st) {
+			if strings.HasPrefix(f, "asked=") {
+				asked, _ = strconv.ParseUint(f[6:], 10, 64)
+			}
+		}
+		orc.Askf("c18 drop %d", pi)
+		mo[pi] = modelOut{img, mexit, lines, asked}
+		for _, l := range lines {
+			rep.Count("model-answer:" + strings.Fields(l)[0])
+		}
+	}
+	// sleep monitor: a run whose model trace hands >= 0.4 s to Nanosleep must not take that long.
+	// Flagged only when EVERY such run (at least 6, over all children and instances) took at least
+	// 90 % of the asked time (normal: a few ms, so the threshold is > 50x the median).
+	{
+		slow, fast := 0, 0
+		var first map[string]any
+		for _, v := range vars {
+			for _, vr := range v.out.Results {
+				ask := mo[vr.Idx].asked
+				if ask < longSleepNs {
+					continue
+				}
+				for _, ms := range []int64{vr.WallMsA, vr.WallMsB} {
+					if uint64(ms)*1_000_000 >= ask/10*9 {
+						slow++
+						if first == nil {
+							first = map[string]any{"program": vr.Idx, "seed": *hx.Seed, "batch": batch, "calls": progs[vr.Idx].Calls, "asked_ns": ask, "took_ms": ms, "child": v.ID}
+						}
+					} else {
+						fast++
+					}
+				}
+			}
+		}
+		rep.Note("sleep monitor: %d runs with a long poll_oneoff timeout, %d of them took at least the timeout", slow+fast, slow)
+		faulted := false
+		for _, v := range vars {
+			faulted = faulted || v.out.Fault == "real-sleep"
+			if strings.HasPrefix(v.out.Fault, "hang ") {
+				idx, _ := strconv.Atoi(v.out.Fault[5:])
+				if mo[idx].asked < 20_000_000_000 {
+					hx.Fatal("child %d: program %d did not finish within 20 s although its model trace asks for %d ns of sleep only", v.ID, idx, mo[idx].asked)
+				}
+				rep.Violate(hx.Violation{Kind: "impl-violation", Signature: "C18:poll_oneoff-really-sleeps",
+					What:  fmt.Sprintf("program %d did not return within 20 s in child %d: its trace hands %d ns to the context's Nanosleep, which must be a no-op under default configuration", idx, v.ID, mo[idx].asked),
+					Input: map[string]any{"program": idx, "seed": *hx.Seed, "batch": batch, "calls": progs[idx].Calls}})
+				return true
+			}
+		}
+		if slow >= 6 && fast == 0 {
+			rep.Violate(hx.Violation{Kind: "impl-violation", Signature: "C18:poll_oneoff-really-sleeps",
+				What:  fmt.Sprintf("every one of %d runs containing a %d ms poll_oneoff clock timeout really took that long: the default context sleeps for real", slow, longSleepNs/1000000),
+				Input: first})
+		}
+		if faulted {
+			if !(slow >= 6 && fast == 0) {
+				hx.Fatal("a child stopped for real-sleep but the sleep monitor does not confirm (slow=%d fast=%d)", slow, fast)
+			}
+			return true
+		}
+	}
 
 	ref := vars[0]
 	sampled := 0
 	for pi, p := range progs {
 		// tie B: model image vs the reference child
-		img, mexit, lines := modelImage(p, pi, pi)
+		img, mexit, lines := mo[pi].img, mo[pi].exit, mo[pi].lines
 		rr := ref.out.Results[pi]
 		if rr.Idx != p.Idx {
 			hx.Fatal("result order")
 		}
-		for i, l := range lines {
-			key := ""
-			if f := strings.Fields(l); len(f) > 1 || (len(f) == 1 && f[0] != "52") {
-				key = fmt.Sprintf("%d/%d/%s/%x", pi, i, p.Calls[i].Fn, sha256.Sum256([]byte(l)))[:60]
-			}
-			_ = key
-			rep.Count("model-errno:" + strings.Fields(l)[0])
-		}
 		inp := func(i int) map[string]any {
-			m := map[string]any{"program": p.Idx, "seed": *hx.Seed, "calls": p.Calls}
+			m := map[string]any{"program": p.Idx, "seed": *hx.Seed, "batch": batch, "calls": p.Calls}
 			if i >= 0 {
-				m = map[string]any{"program": p.Idx, "seed": *hx.Seed, "call_index": i, "call": p.Calls[i], "calls_before": p.Calls[:i]}
+				m = map[string]any{"program": p.Idx, "seed": *hx.Seed, "batch": batch, "call_index": i, "call": p.Calls[i], "calls_before": p.Calls[:i]}
 			}
 			return m
 		}
@@ -542,17 +651,22 @@ func main() {
 		}
 		// a second model run over a different host record answers the same (theorem default_ignores_host,
 		// exercised on the compiled model)
-		img2, _, _ := modelImage(p, pi+100000, pi*31+7)
+		img2, _, _ := modelImage(p, pi+100000, pi*31+7+batch)
+		orc.Askf("c18 drop %d", pi+100000)
 		if !bytes.Equal(img, img2) {
 			rep.Violate(hx.Violation{Kind: "correspondence", Signature: "C18:model-depends-on-host", What: "the Lean model's default trace differs between two host records", Input: inp(-1)})
 		}
 		// tie C: all children, both instances
 		for _, v := range vars {
 			vr := v.out.Results[pi]
+			if vr.Idx != p.Idx {
+				hx.Fatal("result order")
+			}
 			who := fmt.Sprintf("child %d engine=%s TZ=%s GOMAXPROCS=%d started +%dms", v.ID, v.Engine, v.TZ, v.MaxProcs, v.DelayMs)
 			for inst, m := range [][]byte{vr.MemA, vr.MemB} {
 				es := []string{vr.ErrA, vr.ErrB}[inst]
-				rep.Case(fmt.Sprintf("%d/%d/%d", pi, v.ID, inst))
+				h := sha256.Sum256(p.Wasm)
+				rep.Case(fmt.Sprintf("%d/%d/%x", v.ID, inst, h[:8]))
 				if !bytes.Equal(m, rr.MemA) || es != rr.ErrA {
 					i, d := firstDiff(p, rr.MemA, m)
 					fn := "-"
@@ -584,15 +698,23 @@ func main() {
 	}
 	for _, v := range vars {
 		if bytes.Contains(v.stdout, []byte(guestMark[:8])) || bytes.Contains(v.stderr, []byte(guestMark[:8])) {
+			var in any
+			for _, p := range progs {
+				for i, c := range p.Calls {
+					if c.Fn == "fd_write" && (c.Args[0] == 1 || c.Args[0] == 2) && c.Args[2] > 0 && in == nil {
+						in = map[string]any{"program": p.Idx, "seed": *hx.Seed, "batch": batch, "call_index": i, "call": c, "note": "first fd_write to fd 1/2 with data in this run; the child's stdout/stderr start with " + trunc(string(v.stdout)+string(v.stderr), 60)}
+					}
+				}
+			}
 			rep.Violate(hx.Violation{Kind: "impl-violation", Signature: "C18:guest-output-reaches-host-stdio",
-				What: fmt.Sprintf("bytes written by the guest to fd 1/2 appeared on the child's real stdout/stderr (child %d)", v.ID)})
+				What:  fmt.Sprintf("bytes written by the guest to fd 1/2 appeared on the child's real stdout/stderr (child %d)", v.ID),
+				Input: in})
 		} else if len(v.stdout)+len(v.stderr) > 0 {
 			rep.Violate(hx.Violation{Kind: "correspondence", Signature: "C18:child-printed-output",
 				What: fmt.Sprintf("child %d printed %q %q", v.ID, trunc(string(v.stdout), 200), trunc(string(v.stderr), 200))})
 		}
 	}
-	// distinct count: (function, model answer shape)
-	rep.Write(orc)
+	return false
 }
 
 // toTimesReads: does toTimes read the wall clock for these fst_flags (ATIM=1, ATIM_NOW=2, MTIM=4, MTIM_NOW=8)?
